@@ -81,6 +81,11 @@ IMPORTS = [
      {'g.x': ('v.x1', 'm'), 'box_x': ('v.x2', 'cm')}, ['box.x', 'box2.y', 'boxes.s', 'box_x', 'g.x']),
     ('single descendant selected although a sibling name extends the path', 'size\n  w float = {x1} m\nsizes int = {k1}\nq {?size.*}', {'q.w': ('v.x1', 'm')}, ['size.w', 'sizes', 'q.w']),
     ('import of a host that was defined by a sliced injection', 's float[3] = [1.5,2.5,3.5] m\nt float = {?s}[1] m\nw int = {k1}\ng {?t}', {'g.t': ('2.5', 'm'), 't': ('2.5', 'm')}, ['s', 't', 'w', 'g.t']),
+    ('imported node was defined by a reference; the source changes later; the copy is referenced', 'a float = {x1} m\ng\n  b float = {?a}\na = {x2} m\nc {?g.*}\nd float = {?c.b}',
+     {'g.b': ('v.x1', 'm'), 'c.b': ('v.x1', 'm'), 'd': ('v.x1', 'm')}, ['a', 'g.b', 'c.b', 'd']),
+    ('imported node was defined by an expression; the operand changes later; the copy is referenced', 'a float = {x1} m\ng\n  b float = ("{?a} * 2") m\na = {x2} m\nc {?g.b}\nd float = {?c.b}',
+     {'g.b': ('v.x1 * 2', 'm'), 'c.b': ('v.x1 * 2', 'm'), 'd': ('v.x1 * 2', 'm')}, ['a', 'g.b', 'c.b', 'd']),
+    ('copy of a reference-defined node modified, then referenced', 'a float = {x1} m\ng\n  b float = {?a}\nc {?g.*}\nc.b = {x2} m\nd float = {?c.b}', {'c.b': ('v.x2', 'm'), 'd': ('v.x2', 'm'), 'g.b': ('v.x1', 'm')}, ['a', 'g.b', 'c.b', 'd']),
     ('import of a subtree with deeper levels', 'r\n  a\n    b float = {x1} s\n    b = {x2} ms\n    c\n      d int = {k1}\nq {?r.a.*}', {'q.b': ('v.x2 / 1000', 's'), 'q.c.d': 'v.k1'}, ['r.a.b', 'r.a.c.d', 'q.b', 'q.c.d']),
 ]
 IMP_SRC = '''
@@ -132,6 +137,28 @@ def run(v, O):
         if isinstance(data.get('copy.t'), tuple): out.append(('remote import: float value and unit', O.and_(O.eq(data['copy.t'][0], v.x3, 1e-9), data['copy.t'][1] == 's')))
         out.append(('remote import all', O.same([k for k in data if k.startswith('all.')], ['all.p', 'all.box.n', 'all.box.t'])))
         if isinstance(data.get('all.p'), tuple): out.append(('remote import all: current value', O.eq(data['all.p'][0], v.x2 * 1000, 1e-9)))
+        return out
+    finally:
+        import shutil
+        shutil.rmtree(d, ignore_errors=True)
+'''
+REMOTE2_SRC = '''
+def run(v, O):
+    # remote nodes that were themselves defined by a reference or an expression
+    d = tempfile.mkdtemp(prefix='c17_')
+    try:
+        with open(os.path.join(d, 'second.dip'), 'w') as fh:
+            fh.write(subst(O, v, 'x float = {x1} m\\ny float = {?x}\\ny = {x2} m\\nz float = ("{?x} * 2") m\\nk int = {k1}\\nj int = {?k}\\n'))
+        text = "$source sec = '" + os.path.join(d, 'second.dip') + "'\\none {sec?y}\\ntwo {sec?z}\\nall {sec?*}\\nq float = {?all.y}\\nr float = {?two.z}\\n"
+        r = outcome(lambda: dip_parse(text).data(Format.TUPLE))
+        out = [('remote import of reference/expression-defined nodes: parses', O.same(r[0], 'ok'))]
+        if r[0] == 'ok':
+            data = r[1]
+            out.append(('node paths', O.same(sorted(data.keys()), sorted(['one.y', 'two.z', 'all.x', 'all.y', 'all.z', 'all.k', 'all.j', 'q', 'r']))))
+            for path, want in (('one.y', v.x2), ('two.z', v.x1 * 2), ('all.y', v.x2), ('all.z', v.x1 * 2), ('q', v.x2), ('r', v.x1 * 2)):
+                if isinstance(data.get(path), tuple):
+                    out.append((f'{path}: value unchanged by the import', O.eq(data[path][0], want, 1e-9)))
+            if 'all.j' in data: out.append(('all.j', O.eq(data['all.j'], v.k1)))
         return out
     finally:
         import shutil
@@ -244,6 +271,7 @@ def scenarios(tier, seed):
     for j, (label, text, expect, paths) in enumerate(IMPORTS):
         S.append(Scenario(f'import/{j}', IMP_SRC, inp, consts={'text': text, 'expect': expect, 'paths': paths}, preamble=PRE, what=label, samples=2))
     S.append(Scenario('bad-requests', BAD_SRC, {}, consts={'bad': BAD, 'empty': EMPTY_IMPORTS}, preamble=PRE, what='requests selecting no node or several', samples=1))
+    S.append(Scenario('remote-derived', REMOTE2_SRC, inp, consts={}, preamble=PRE, what='import of remote nodes that were defined by a reference or an expression', samples=1))
     S.append(Scenario('remote', REMOTE_SRC, inp, consts={}, preamble=PRE, what='second file through $source', samples=1))
     S.append(Scenario('base-env-without-nodes', BASE2_SRC, {'x1': 'real', 'x2': 'real', 'x3': 'real', 'k1': 'int'}, ['v.x3 > 0', 'v.x2 > 0'], consts={}, preamble=PRE, what='parse on top of a base environment that has no nodes', samples=2))
     S.append(Scenario('base-env', BASE_SRC, inp, ['v.x3 > 0', 'v.x2 > 0'], consts={}, preamble=PRE, what='parse on top of a base environment', samples=2))
